@@ -39,7 +39,17 @@ def cases(tier, seed):
 
 
 def materialise(case):
-    return _embedded.materialise_assembly(case)
+    if case.get("kind") == "assembly-mat":
+        return case
+    m = _embedded.materialise_assembly(case)
+    # own stream: in one case in eight the reference lists hold reference-like objects of another class (annotations accept
+    # any object; the library only compares and copies them)
+    rd = gen.rng_for(case["seed"], PROP, "duck", case["enzyme"], case["i"])
+    if rd.random() < 0.125:
+        for s in [m["vector"]] + m["modules"]:
+            for ref in s.get("refs", []):
+                ref["duck"] = True
+    return m
 
 
 _mon = None
@@ -152,6 +162,19 @@ def execute(mat, ctx):
             sp = gen.build_module(rng, geom, o[0], o[1], rng.randint(2, 12), rng.randint(0, 10))
             sspec = {"id": "spare", "seq": sp["seq"], "refs": [dict(_embedded._ref(1), span=True)],
                      "features": [{"type": "misc_feature", "parts": [[0, 3, 1]], "quals": {"uid": ["spare.0"], "citation": ["[1]"]}}]}
+            # first as an ordinary call: the leftover module (which carries citations too) is only warned about
+            spare_ent = M(gen.make_record(sspec))
+            for n in (1, 2):
+                _mon.tag = {"call": "same-wrappers:with-unused-cited-module:%d" % n}
+                ctx.count("c10_calls_with_unused_cited_module")
+                try:
+                    with _w.catch_warnings():
+                        _w.simplefilter("ignore")
+                        ev.assemble(*(em + [spare_ent]), id=mat.get("id", "assembly"), name=mat.get("name", "assembly"))
+                except Exception as e:
+                    ctx.violation("assembly-with-unused-cited-module-raises:%s" % type(e).__name__,
+                                  "call %d with a cited module that takes no part in the chain raised %s: %s" % (n, type(e).__name__, str(e)[:160]))
+                    break
             _mon.tag = {"call": "same-wrappers:unused-module-escalated-to-error"}
             ctx.count("c10_escalated_unused_module_calls")
             _mon.keep_filters = True
